@@ -205,4 +205,9 @@ def run(rep, db, tier, seed):
         kani_part.run(rep, PROP, tier)
     from props import c09_canon
     c09_canon.run(rep, db, tier)
+    try:
+        from props import c09_bls
+        c09_bls.run(rep, db, tier)
+    except Exception as u:
+        rep.add(Obligation('identity aggregate signature round trip', 'inconclusive', f'{type(u).__name__}: {u}'[:600]))
     rep.extra['explanation'] = 'value-level losslessness of every ProtoFmt build/read pair on the real MIR (ideal leaf codecs) and of the std_conv converters by Kani; byte-level canonicity is outside the claim'
